@@ -6,6 +6,7 @@ Ladim.Model.Validate (`validate`)."""
 from __future__ import annotations
 
 import copy
+from fractions import Fraction
 import glob
 import os
 from pathlib import Path
@@ -19,7 +20,7 @@ from harness.common import Ctx, driver, pmap, use_repo
 FAULTS = [
     "none", "forcing_starts_late", "forcing_ends_early", "forcing_starts_fraction_late", "forcing_ends_fraction_early", "frames_out_of_order", "frame_duplicated_across_files",
     "missing_start", "missing_stop", "missing_dt", "stop_wrong_side", "release_before_start", "release_after_stop",
-    "release_at_stop_only", "release_without_position", "no_grid_file", "no_forcing_file", "no_release_file",
+    "release_at_stop_only", "release_one_step_before_start", "release_half_step_before_start", "release_without_position", "no_grid_file", "no_forcing_file", "no_release_file",
     "empty_release_file_name", "no_config_file", "no_time_section", "no_tracker_section", "no_release_section",
     "no_output_section", "no_forcing_section", "no_forcing_section_explicit_grid", "illegal_subgrid_order",
     "illegal_subgrid_edge", "bad_version",
@@ -83,6 +84,12 @@ def apply_fault(sc, fault, d):
             r["step"] = -3 if not sc["continuous"] else r["step"]
         if sc["continuous"]:
             fault = "none-equivalent"   # in continuous mode earlier file times are not a fault
+    if fault in ("release_one_step_before_start", "release_half_step_before_start"):
+        if sc["continuous"]:
+            fault = "none-equivalent"
+        else:
+            for r in sc["rows"]:
+                r["step"] = -1 if fault == "release_one_step_before_start" else Fraction(-1, 2)
     if fault == "release_after_stop":
         for r in sc["rows"]:
             r["step"] = sc["nsteps"] + 2
